@@ -66,6 +66,10 @@ pub struct Socket {
 }
 //@end
 impl Socket {
+    /// ASSUMED (socket.rs:72-98, Arc / Mutex / Waker and the bencode decoder are outside the subset): yields some decoded message with its
+    /// source address, or an error; undecodable datagrams are skipped inside (it has no access to the effect trace: it cannot send)
+    #[verifier::external_body]
+    pub fn recv(&self) -> Result<(Message, SocketAddr), io::Error> { unimplemented!() }
     #[verifier::external_body]
     pub fn send(&self, message: &Message, addr: SocketAddr, Tracked(tr): Tracked<&mut Trace>) -> (r: Result<(), io::Error>)
         ensures final(tr).ev == old(tr).ev.push(Ev::Send(*message, addr))
@@ -169,6 +173,21 @@ impl<T> Timer<T> {
             final(self).pending@ == old(self).pending@.insert(key, value),
             key.deadline.t as int == tclock() + dur_nanos(deadline),
     { unimplemented!() }
+    /// proved in unit `timer` for the real Timer::is_empty: true iff nothing is pending
+    #[verifier::external_body]
+    pub fn is_empty(&self) -> (r: bool)
+        ensures r == (forall|k: Timeout| !self.pending@.contains_key(k))
+    { unimplemented!() }
+    /// ASSUMED (timer.rs:77-105, Stream::poll_next over Pin / Context is outside the subset; `next` is StreamExt::next): when an entry is
+    /// pending the stream yields the task of exactly one pending entry and removes that entry; nothing else changes
+    #[verifier::external_body]
+    pub fn next(&mut self) -> (r: Option<T>)
+        requires old(self).wf()
+        ensures final(self).wf(), final(self).next_id == old(self).next_id,
+            (exists|k: Timeout| old(self).pending@.contains_key(k)) ==> r is Some,
+            r is Some ==> exists|k: Timeout| #[trigger] old(self).pending@.contains_key(k) && old(self).pending@[k] == r->0 && final(self).pending@ == old(self).pending@.remove(k),
+            r is None ==> final(self).pending@ == old(self).pending@,
+    { unimplemented!() }
     #[verifier::external_body]
     pub fn cancel(&mut self, timeout: Timeout) -> (r: bool)
         requires old(self).wf()
@@ -197,6 +216,11 @@ pub open spec fn only_requests_and_yields(o: Seq<Ev>, f: Seq<Ev>) -> bool {
 pub open spec fn sends_only_requests(o: Seq<Ev>, f: Seq<Ev>) -> bool {
     extends(o, f) && forall|i: int| o.len() <= i < f.len() && #[trigger] f[i] is Send ==> f[i]->Send_0.body is Request
 }
+// ---- R-select: tokio::select! read as a nondeterministic choice between its enabled arms
+#[verifier::external_body]
+pub fn vx_select() -> usize { unimplemented!() }
+/// tokio's select! panics when every arm is disabled and there is no else arm
+pub fn vx_select_idle(some_arm_enabled: bool) requires some_arm_enabled {}
 /// C10 / C11 / C12: marking discipline between o and f.  A record is marked only right after it was looked up by its (id, address) handle and found,
 /// always in the direction `we_queried` (true: we sent it a query; false: it sent us one); and every record that was looked up and found IS marked.
 #[verifier::opaque]
